@@ -77,6 +77,25 @@ def gen_cond(w, tag, R, Dy, Dx, kind="full", ctor="Sigma+Lambda+ld", zeroM=False
     return c, dict(S=g["S"], L=g["L"], ld=g["ld"], M=M, b=b)
 
 
+def gen_factored_joint(w, tag, R, Dy, Dx):
+    """an arbitrary Gaussian q over (y, x), y first, written in its conditional factorisation q(x) q(y|x):
+         x ~ N(mx, Sx),  y | x ~ N(G x + g, Sq)    (every Gaussian over (y,x) has exactly one such form:
+         G = S_yx S_xx^-1, Sq = S_yy - S_yx S_xx^-1 S_xy; a reparametrisation of the generator, not a restriction)
+    returns the block arrays mu, S, L, ld (ld = ln det Sx + ln det Sq: GtvLemmas.det_fromBlocks22) and the factors"""
+    xp = w.xp
+    gx, gq = w.spd(tag + "x", batch(R), Dx), w.spd(tag + "q", batch(R), Dy)
+    G, g0, mx = w.arr("G" + tag, *batch(R), Dy, Dx), w.arr("g" + tag, *batch(R), Dy), w.arr("m" + tag, *batch(R), Dx)
+    GS = xp.einsum("rij,rjk->rik", G, gx["S"])
+    LG = xp.einsum("rij,rjk->rik", gq["L"], G)
+    Sg = xp.concatenate([xp.concatenate([gq["S"] + xp.einsum("rik,rjk->rij", GS, G), GS], axis=2),
+                         xp.concatenate([xp.swapaxes(GS, 1, 2), gx["S"]], axis=2)], axis=1)
+    L = xp.concatenate([xp.concatenate([gq["L"], -LG], axis=2),
+                        xp.concatenate([-xp.swapaxes(LG, 1, 2), gx["L"] + xp.einsum("rji,rjk->rik", G, LG)], axis=2)], axis=1)
+    mu = xp.concatenate([xp.einsum("rij,rj->ri", G, mx) + g0, mx], axis=1)
+    return dict(mu=mu, S=Sg, L=L, ld=gx["ld"] + gq["ld"], G=G, g=g0, Sq=gq["S"], Lq=gq["L"],
+                px=dict(mu=mx, S=gx["S"], L=gx["L"], ld=gx["ld"]))
+
+
 def cond_mean(w, par, x, R):
     """[R?, N, Dy] spec mean M x + b; identity kinds: x"""
     xp = w.xp
